@@ -118,7 +118,9 @@ fn case_t<T: Sc>(rng: &mut Rng, case: u64, out: &mut CaseOut, ops: &OpLog) {
     };
     let fit0 = p0.fit(&lm);
     let calls_fit = ctl0.calls();
-    let fit_ok = fit0.is_ok();
+    // "the fit failed" is judged by the optimizer's own report, not by the Ok/Err of varpro's fit
+    let fit_ok = fit0.term_success();
+    out.seen("terminations_of_the_plain_fit", fit0.termination().split('(').next().unwrap_or("").to_string());
 
     // the real thing
     ops.op(&format!("fit_with_statistics N={n} M={m} P={p} {}", T::NAME));
@@ -135,8 +137,12 @@ fn case_t<T: Sc>(rng: &mut Rng, case: u64, out: &mut CaseOut, ops: &OpLog) {
                 violation(out, stream, case, format!("fit_with_statistics returned Ok for an under-determined fit: N={n} <= M+P={total}"), json!({"problem": spec.to_json(), "N": n, "M": m, "P": p}));
                 return;
             }
+            if !fit.term_success() {
+                violation(out, stream, case, format!("fit_with_statistics returned Ok although the returned fit terminated unsuccessfully ({})", fit.termination()), json!({"problem": spec.to_json(), "optimizer": cfg.to_json()}));
+                return;
+            }
             if !fit_ok {
-                violation(out, stream, case, "fit_with_statistics returned Ok although the same fit fails", json!({"problem": spec.to_json()}));
+                violation(out, stream, case, format!("fit_with_statistics returned Ok although the same fit fails ({})", fit0.termination()), json!({"problem": spec.to_json(), "optimizer": cfg.to_json()}));
                 return;
             }
             let eps = T::EPS;
